@@ -9,6 +9,9 @@ Definition mkE (r d c : Z) (ups : list (Z * bool)) : entry :=
 (** What the harness reads after a step. *)
 Inductive obs :=
   Obs (panicked : bool)                 (* the step panicked (recovered) *)
+      (err : Z)                         (* error classes of the step (bits): 1 Close failed, 2 New failed,
+                                           4 reset not 200, 8 GET stats not 200, 16 error-level log record,
+                                           32 file unreadable; the model never fails: 0 *)
       (cfg_ms : Z) (cfg_en : bool)      (* WriteDiskConfig *)
       (curid : Z)                       (* s.curr.id *)
       (totals : list Z)                 (* num_dns_queries, sum nResult[1], num_blocked_filtering,
@@ -40,7 +43,7 @@ Definition panics (s : state) (o : op) : bool :=
 
 Definition observe (p : bool) (s : state) : obs :=
   let d := get_data s in
-  Obs p (lim_ms s) (enabled s) (cur_id s)
+  Obs p 0 (lim_ms s) (enabled s) (cur_id s)
     [d_num d; num_nf s; d_num_f d; d_num_sb d; d_num_ss d; d_num_p d]
     (d_days d) (Z.of_nat (length (d_dns d)))
     [sparse (d_dns d); sparse (d_blocked d); sparse (d_sb d); sparse (d_par d)]
@@ -51,8 +54,8 @@ Definition eqb_zz (a b : Z * Z) := (fst a =? fst b) && (snd a =? snd b).
 
 Definition eqb_obs (a b : obs) : bool :=
   match a, b with
-  | Obs p1 m1 e1 c1 t1 d1 n1 s1 o1 u1, Obs p2 m2 e2 c2 t2 d2 n2 s2 o2 u2 =>
-      Bool.eqb p1 p2 && (m1 =? m2) && Bool.eqb e1 e2 && (c1 =? c2) &&
+  | Obs p1 x1 m1 e1 c1 t1 d1 n1 s1 o1 u1, Obs p2 x2 m2 e2 c2 t2 d2 n2 s2 o2 u2 =>
+      Bool.eqb p1 p2 && (x1 =? x2) && (m1 =? m2) && Bool.eqb e1 e2 && (c1 =? c2) &&
       eqb_list Z.eqb t1 t2 && Bool.eqb d1 d2 && (n1 =? n2) &&
       eqb_list (eqb_list eqb_zz) s1 s2 && eqb_list (eqb_list eqb_zz) o1 o2 &&
       eqb_list eqb_zz u1 u2
